@@ -142,7 +142,8 @@ theorem compile_correct_partial (P : Script) (prog : Program) (hc : compile P = 
   obtain ⟨cx, hE, hok⟩ := run_setup hc hv hr hb
   have hrel : Rel B.accts B.keys ({ balances := B } : VM.Machine) { st := { bal := B.bal, postings := [] } } :=
     ⟨rfl, rfl, rfl, rfl, rfl, rfl, rfl, hok⟩
-  have hex := execute_correct hc hfr cx hE _ _ hrel
+  have hp := vpos_of_resolved hc (frag_tablePos hc hfr) hv hr hb
+  have hex := execute_correct hc hfr cx hp hE _ _ hrel
   simp only [VM.run, hv, hr, hb]
   cases hev : evalStmts (envOf prog.resources vals) P.stmts { st := { bal := B.bal, postings := [] } } with
   | error er =>
@@ -181,7 +182,8 @@ example : Script.frag
 /-! #### the resolution stage, and the end-to-end statement on the fragment -/
 
 /-- **the VM's resolution stage is `Spec`'s** — for EVERY compiled program (the whole language, no fragment
-hypothesis), every variable map and every store.  `SetVarsFromJSON` / `ResolveResources` / `ResolveBalances` on the
+hypothesis; `hpos`: no portion literal of the text has a zero denominator — the parser produces none), every variable
+map and every store.  `SetVarsFromJSON` / `ResolveResources` / `ResolveBalances` on the
 compiled program fail exactly when `Spec.prepare` (`bindPlain`, `resolveVars`) / `checkBalanceVars` fail, with the
 same error class (`invalid_vars`, `missing_metadata`, `resolve_error`, `negative_amount`; the first failing
 declaration wins on both sides, a negative `balance(…)` is reported only after every declaration resolved); and
@@ -190,7 +192,8 @@ when they succeed, the resolved resource table is the value of every resource un
 `Program.NeededBalances`, resolved, is `Spec.needed` as a set (`Num.compile_needed`).
 Proof: `Lemmas/NumPrepare.lean` (`SetVarsFromJSON` = `bindPlain`), `Lemmas/NumSim.lean` (declaration-by-declaration
 simulation, pending `balance(…)` slots), `Lemmas/NumNeeded.lean`, `Lemmas/NumRunEq.lean`. -/
-theorem resolution_stage_eq (P : Script) (prog : Program) (hc : compile P = .ok prog) (req : Request) (store : Store) :
+theorem resolution_stage_eq (P : Script) (prog : Program) (hc : compile P = .ok prog)
+    (hpos : ∀ s ∈ P.stmts, s.litsPos = true) (req : Request) (store : Store) :
     match prepare P req store with
     | .error er => VM.run prog req store = .error er
     | .ok env =>
@@ -199,7 +202,7 @@ theorem resolution_stage_eq (P : Script) (prog : Program) (hc : compile P = .ok 
       | .ok _ => ∃ vars R V B, VM.setVarsFromJSON prog req.vars = .ok vars ∧ VM.resolveResources prog vars store = .ok R ∧
           VM.resolveBalances prog R store = .ok (V, B) ∧ Ctx prog.resources V env ∧
           B.bal = initBal store (needed env P.stmts) :=  by
-  have h := resolution_stage hc req store
+  have h := resolution_stage hc (compile_tablePos hc hpos) req store
   cases hp : prepare P req store with
   | error er => rw [hp] at h; exact h
   | ok env =>
@@ -209,7 +212,7 @@ theorem resolution_stage_eq (P : Script) (prog : Program) (hc : compile P = .ok 
     | error er => rw [hcb] at h; exact h
     | ok u =>
       rw [hcb] at h
-      obtain ⟨vars, R, V, B, h1, h2, h3, h4, h5, _⟩ := h
+      obtain ⟨vars, R, V, B, h1, h2, h3, h4, _, h5, _⟩ := h
       exact ⟨vars, R, V, B, h1, h2, h3, h4, h5⟩
 
 /-- **compiled programs do what the source says — end to end, on the fragment**: for every program of
@@ -220,7 +223,7 @@ has no panic alternative).  No hypothesis on the resolution stage is left. -/
 theorem compile_correct_frag (P : Script) (prog : Program) (hc : compile P = .ok prog) (hfr : P.frag)
     (req : Request) (store : Store) :
     (VM.run prog req store).map VM.Result.obs = VM.Outcome.ofExcept ((Num.run P req store).map Num.Result.obs) :=
-  run_eq_of_exec hc (fun _ _ _ cx _ hE m F hrel => execute_correct hc hfr cx hE m F hrel) req store
+  run_eq_of_exec hc (frag_tablePos hc hfr) (fun _ _ _ cx hp _ hE m F hrel => execute_correct hc hfr cx hp hE m F hrel) req store
 
 /-! non-vacuity: a program of the fragment (ordered capped source with a `@world` fallback, metadata) compiles,
 and both sides of `compile_correct_frag` are the two postings below (kernel evaluation of the compiler, the VM and
@@ -257,6 +260,25 @@ example : (match compile exOrd with
 
 example : ((Num.run exOrd ⟨[], []⟩ exStore).map Num.Result.obs).toOption =
     some ⟨[⟨"world", "a", 3, "USD"⟩, ⟨"world", "c", 1, "USD"⟩, ⟨"world", "b", 4, "USD"⟩], [], [], []⟩ := by decide +kernel
+
+/-! … and destination allotments; the second one writes the same rational as `2/4`, which the compiler de-duplicates
+against the constant `1/2` of the first (only ONE portion constant is in the table): the shares are those of `Spec` -/
+def exAllot : Script :=
+  ⟨[], [.send (.mon (.mon (.asset "USD") 7)) (.src (.acct (.acct "world") .none))
+          (.allot (.cons (.const ⟨1, 2⟩) (.to (.acct (.acct "a"))) (.cons .remaining (.to (.acct (.acct "b"))) .nil))),
+        .send (.mon (.mon (.asset "USD") 5)) (.src (.acct (.acct "world") .none))
+          (.allot (.cons (.const ⟨2, 4⟩) (.to (.acct (.acct "c"))) (.cons .remaining .kept .nil)))]⟩
+
+example : Script.frag exAllot := ⟨by simp [exAllot], by intro s hs; simp [exAllot] at hs; rcases hs with rfl | rfl <;> decide⟩
+
+example : (match compile exAllot with
+    | .ok prog => (match VM.run prog ⟨[], []⟩ exStore with | .ok r => some (r.obs, prog.resources.filter (fun r => r.bty == .portion)) | _ => none)
+    | .error _ => none) =
+    some (⟨[⟨"world", "a", 4, "USD"⟩, ⟨"world", "b", 3, "USD"⟩, ⟨"world", "c", 3, "USD"⟩], [], [], []⟩,
+      [.const .remaining, .const (.portion ⟨1, 2⟩)]) := by decide +kernel
+
+example : ((Num.run exAllot ⟨[], []⟩ exStore).map Num.Result.obs).toOption =
+    some ⟨[⟨"world", "a", 4, "USD"⟩, ⟨"world", "b", 3, "USD"⟩, ⟨"world", "c", 3, "USD"⟩], [], [], []⟩ := by decide +kernel
 
 /-- invariant of the cache: every entry is the compilation of some text with that digest -/
 def CacheInv {Text Key Prog : Type} (H : Text → Key) (compile : Text → Option Prog) (c : Cache.Store Key Prog) : Prop :=
